@@ -19,11 +19,14 @@ Variant(f, kind) ==
     [] kind = "msd"     -> [d EXCEPT !.streams[2] = Stream(f, "LF0", "lf0_", 1, WinSet(f.winset), FALSE, <<>>, d.streams[2].usegv, 1)]
     [] kind = "gv"      -> [d EXCEPT !.streams[1] = Stream(f, "MCP", "mcp_", McpVlen(f), WinSet(f.winset), FALSE, McpOpts(f), ~f.gv, 0)]
     [] kind = "option"  -> [d EXCEPT !.streams[1].opts = <<"ALPHA=0.5">> \o Tail(d.streams[1].opts)]
+    \* a later voice whose option list is a proper prefix-less subset / a superset of the first voice's
+    [] kind = "option-dropped" -> [d EXCEPT !.streams[1].opts = Tail(d.streams[1].opts)]
+    [] kind = "option-added"   -> [d EXCEPT !.streams[1].opts = Append(d.streams[1].opts, "X=1")]
     \* the same kinds of difference on the LAST stream (so that a comparison that stops early is noticed)
     [] kind = "last-vlen" -> LET n == Len(d.streams)  ls == d.streams[n] IN
                              [d EXCEPT !.streams[n] = Stream(f, ls.name, ls.pre, ls.vlen + 2, ls.wins, ls.msd, ls.opts, ls.usegv, n - 1)]
     [] kind = "last-option" -> [d EXCEPT !.streams[Len(d.streams)].opts = <<"X=1">>]
-Kinds == <<"same", "rate", "fperiod", "nstate", "nstream", "vlen", "nwin", "msd", "gv", "option", "last-vlen", "last-option">>
+Kinds == <<"same", "rate", "fperiod", "nstate", "nstream", "vlen", "nwin", "msd", "gv", "option", "last-vlen", "last-option", "option-dropped", "option-added">>
 
 \* ---------------- mode "compat": sets of 0..3 voices built from a base and variants
 CompatNext == /\ st = "init"
